@@ -258,6 +258,9 @@ class Interp:
                     out.append(dims[pos])
                 elif e.lower is None and e.step is None and self._is_dim(e.upper, dims[pos]):
                     out.append(dims[pos])
+                elif e.step is None and (e.lower is None or norm(e.lower) == '0') and e.upper is not None \
+                        and (self.ev(e.upper) or (None,))[0] == 'int' and isinstance(self.ctx.res(self.ev(e.upper)[1]), str):
+                    out.append(self.ctx.res(self.ev(e.upper)[1]))      # x[:N]: the leading N entries of that axis
                 else:
                     out.append(U())
                 pos += 1
@@ -482,7 +485,9 @@ class Interp:
                 return tuple(out)
             ok = True
             why = None
-            bound = list(zip([p for p in alt['order']], args)) + [(k, v) for k, v in kw.items()]
+            # keyword arguments use the callee's current parameter names; the table is keyed by the declared ones
+            today = getattr(c, 'callee_names', {}).get(name, {})
+            bound = list(zip([p for p in alt['order']], args)) + [(today.get(k, k), v) for k, v in kw.items()]
             for pname, a in bound:
                 want = params.get(pname)
                 if want is None:
@@ -535,6 +540,20 @@ class Interp:
         """truth of a test on ranks / literal integers; None when not decided"""
         if isinstance(t, ast.Compare) and len(t.ops) == 1:
             a, b = self.ev(t.left), self.ev(t.comparators[0])
+            if a is not None and b is not None and a[0] == 'int' and b[0] == 'int':
+                da, db = self.ctx.res(a[1]), self.ctx.res(b[1])
+                rel = getattr(self.ctx, 'order', {})
+                small = rel.get((da, db)) or rel.get((db, da)) if isinstance(da, str) and isinstance(db, str) else None
+                if small is not None and da != db:
+                    strict = getattr(self.ctx, 'strict', False)
+                    op = type(t.ops[0])
+                    if small == da:         # da <= db (< if strict)
+                        table = {ast.Lt: True if strict else None, ast.LtE: True, ast.Gt: False, ast.GtE: False if strict else None,
+                                 ast.Eq: False if strict else None, ast.NotEq: True if strict else None}
+                    else:                   # db <= da
+                        table = {ast.Gt: True if strict else None, ast.GtE: True, ast.Lt: False, ast.LtE: False if strict else None,
+                                 ast.Eq: False if strict else None, ast.NotEq: True if strict else None}
+                    return table.get(op)
             if a is not None and b is not None and a[0] == 'int' and b[0] == 'int' and isinstance(a[1], int) and isinstance(b[1], int):
                 op = t.ops[0]
                 table = {ast.Eq: a[1] == b[1], ast.NotEq: a[1] != b[1], ast.Lt: a[1] < b[1], ast.LtE: a[1] <= b[1], ast.Gt: a[1] > b[1], ast.GtE: a[1] >= b[1]}
@@ -556,6 +575,8 @@ class Interp:
     # ------------------------------------------------------------------ statements
     def run(self, body):
         for st in body:
+            if getattr(self, 'done', False):
+                return
             self.stmt(st)
 
     def bind_target(self, t, v, st):
@@ -617,11 +638,13 @@ class Interp:
                 self.run(st.body if tv else st.orelse)
                 return
             before = dict(self.env)
+            self.undecided = getattr(self, 'undecided', 0) + 1
             self.run(st.body)
             e1 = self.env
             self.env = dict(before)
             self.run(st.orelse)
             e2 = self.env
+            self.undecided -= 1
             merged = {}
             for k in set(e1) | set(e2):
                 merged[k] = e1.get(k) if e1.get(k) == e2.get(k) else (e1.get(k) if k not in e2 else (e2.get(k) if k not in e1 else None))
@@ -629,16 +652,20 @@ class Interp:
         elif isinstance(st, ast.Return):
             v = self.ev(st.value) if st.value is not None else None
             self.env['<return>'] = v
+            if not getattr(self, 'undecided', 0):
+                self.done = True        # reached on a path whose tests were all decided: nothing after it runs
         elif isinstance(st, (ast.With, ast.Try)):
             self.run(st.body)
             if isinstance(st, ast.Try):
                 self.run(st.finalbody)
 
 
-def check_function(model, fi, alt, sigs):
+def check_function(model, fi, alt, sigs, callee_names=None):
     """interpret fi under one alternative of its declared signature -> Ctx"""
     ctx = Ctx(fi, alt.get('name', fi.name))
+    ctx.callee_names = callee_names or {}
     ctx.order = alt.get('order_rel', {})
+    ctx.strict = alt.get('strict', False)
     ctx.facts = alt.get('facts', {})
     env = {}
     for p, dims in alt['params'].items():
